@@ -22,7 +22,8 @@ MANIFEST = dict(
          "executors against an in-process hook server; parents and children pre-existing in the simulated API server; after "
          "each event a poke of every parent and a barrier). The recorded observations are validated by TLC against "
          "spec/TraceLifecycle.tla, which evaluates the SAME clause definitions as monitors and computes the signature of a hit "
-         "by re-evaluating the clause with the named cause's effects masked.",
+         "by re-evaluating the clause with the named cause's effects masked."
+         ' Variant: the event that stops an instance arrives while one of its syncs is in flight (hook answer held back; a held customize answer names a new related resource).',
     ref="DESIGN.md §8 C20",
     tech="TLA+ model + TLC exhaustive check + TLC behaviour enumeration replayed on real code + TLC trace validation",
     note="trusted base: TLC; the simulated API server's LIST/WATCH accounting (harness/verifsim); controller-runtime's fake client "
